@@ -56,6 +56,16 @@ func TestProp(t *testing.T) {
 			os.WriteFile(path, fk.best.Pretty(), 0o644)
 		}
 	}()
+	if p.Pre != nil {
+		if c, f := p.Pre(st, envInt("VERIF_SHARD", 0), envInt("VERIF_SHARDS", 1), thorough); f != nil {
+			if c == nil {
+				c = &Case{}
+			}
+			c.Prop, c.Note = id, f.Error()
+			fk.offer(c, f.Error())
+			t.Fatalf("%s violated (exhaustive part): %s", id, f.Error())
+		}
+	}
 	rapid.Check(t, func(rt *rapid.T) {
 		c := p.Gen(rt, thorough)
 		c.Prop = id
